@@ -6,7 +6,9 @@
      D pairs ; probes            rlp-encode the array AS GIVEN (any order, zeros, duplicates),
                                  DecodeBytes into Validators; model: its own writer, reader, builder
                                                                             obs: VS RAW hex | PANIC
-     G pairs ; probes            big builder, stakes up to 2^256            obs: VS | PANIC
+     G pairs ; probes            big builder, stakes = decimal big integers up to 2^256, also negative
+                                 ones and nil (outside the property's domain: model comparison only)
+                                                                            obs: VS | PANIC
    VS = n I ids W weights X idxs T total L len(Idxs) GI GetID.. GW GetWeightByIdx.. P (get exists getidx)*
    spec side (PosSpec): the reported order is the canonical arrangement (by rank, no sort) of the
    last-written non-zero pairs; idx = position; total = sum; Build panics iff total > 2^31-1;
@@ -119,8 +121,22 @@ let eval inp obs =
     { default_verdict with model_obs; spec_ok = Some (spec obs); model_spec_ok = spec model_obs;
       nontrivial = List.length (eff_pairs ops) >= 2 }
   | "G" :: rest ->
-    let ops = pairs_of rest in
-    let model_obs = (match big_build ops with None -> ["PANIC"] | Some vs -> vs_obs vs probes) in
+    (* stakes are big.Int pointers: decimal (possibly negative) or "nil" *)
+    let rec zpairs = function
+      | [] -> []
+      | a :: b :: r -> (n_of_tok a, (if b = "nil" then None else Some (z_of_tok b))) :: zpairs r
+      | _ -> failwith "odd pair list" in
+    let zops = zpairs rest in
+    let model_obs = (match zbig_build zops with None -> ["PANIC"] | Some vs -> vs_obs vs probes) in
+    (* the property's domain: every stake handed to Set is nil or >= 0 *)
+    let in_domain = List.for_all (fun (_, w) ->
+      match w with None -> true | Some z -> ZA.sign (zz_of_z z) >= 0) zops in
+    if not in_domain then
+      { default_verdict with model_obs; spec_ok = None; model_spec_ok = true; nontrivial = false;
+        note = "negative stake: outside the domain of C12, model comparison only" }
+    else begin
+    let ops = List.map (fun (i, w) ->
+      (i, (match w with None -> N0 | Some z -> n_of_z (zz_of_z z)))) zops in
     let spec o =
       (match find_shift (nat_of_int 4000) N0 (spec_total ops) with
        | None -> false
@@ -132,6 +148,7 @@ let eval inp obs =
          o <> ["PANIC"] && fits pairs && vs_spec pairs effw idx_of probes o) in
     { default_verdict with model_obs; spec_ok = Some (spec obs); model_spec_ok = spec model_obs;
       nontrivial = List.length (eff_pairs ops) >= 2 }
+    end
   | _ -> failwith "bad case"
 
 let () = run eval
